@@ -19,7 +19,7 @@ use nodes::*;
 use raw::{Role, Step};
 use std::collections::{BTreeMap, HashSet};
 use std::sync::atomic::{AtomicBool, Ordering};
-use std::sync::{Arc, Mutex};
+use std::sync::Arc;
 use std::time::{Duration, Instant};
 use world::*;
 
@@ -240,7 +240,7 @@ fn run_world_once(scn: &Scenario, base: Option<&Base>, mode: Mode, devs: &[Dev],
 fn exec_world(ctx: &Ctx, t: &WTask, agg: &mut Agg) {
 	let scn = &ctx.scns[t.scn];
 	let base = &ctx.bases[t.scn];
-	let mut one = |devs: &[Dev], agg: &mut Agg| {
+	let one = |devs: &[Dev], agg: &mut Agg| {
 		if Instant::now() >= ctx.deadline {
 			ctx.capped.store(true, Ordering::Relaxed);
 			agg.skipped_by_cap += 1;
@@ -384,7 +384,7 @@ enum Expect {
 	/// No handler may ever be called.
 	Nothing { must_reject: bool },
 	/// After the three `peer_connected` calls exactly these observations, in order.
-	Exactly { obs: Vec<Ev>, must_reject: bool },
+	Exactly { obs: Vec<Ev>, must_reject: Option<bool> },
 	/// Whatever reaches a handler must be an in-order, duplicate-free selection of what was sent.
 	Subseq { sent: Vec<Ev> },
 }
@@ -402,7 +402,7 @@ struct RawCase {
 fn raw_replay(c: &RawCase) -> Value {
 	let (k, must, obs) = match &c.expect {
 		Expect::Nothing { must_reject } => ("nothing", *must_reject, vec![]),
-		Expect::Exactly { obs, must_reject } => ("exactly", *must_reject, obs.clone()),
+		Expect::Exactly { obs, must_reject } => (if must_reject.is_none() { "exactly-any" } else { "exactly" }, must_reject.unwrap_or(false), obs.clone()),
 		Expect::Subseq { sent } => ("subseq", false, sent.clone()),
 	};
 	json!({
@@ -429,7 +429,8 @@ fn raw_case_from_json(v: &Value) -> Option<RawCase> {
 		.collect::<Option<_>>()?;
 	let expect = match v.get("expect")?.as_str()? {
 		"nothing" => Expect::Nothing { must_reject: must },
-		"exactly" => Expect::Exactly { obs, must_reject: must },
+		"exactly" => Expect::Exactly { obs, must_reject: Some(must) },
+		"exactly-any" => Expect::Exactly { obs, must_reject: None },
 		_ => Expect::Subseq { sent: obs },
 	};
 	let p = v.get("pong")?.as_i64()?;
@@ -475,10 +476,10 @@ fn check_raw(c: &RawCase, tr: &raw::RawTrace) -> Result<String, Failure> {
 			if msgs.len() != obs.len() || msgs.iter().zip(obs.iter()).any(|(a, b)| *a != b) {
 				return Err(Failure::new("exact-sequence", format!("handlers observed {} messages, expected {} (or contents differ)", msgs.len(), obs.len())));
 			}
-			if *must_reject && !rejected {
+			if *must_reject == Some(true) && !rejected {
 				return Err(Failure::new("tamper-detected", "expected the connection to be dropped"));
 			}
-			if !*must_reject && rejected {
+			if *must_reject == Some(false) && rejected {
 				return Err(Failure::new("no-spurious-disconnect", "a well-formed exchange was answered with Err/disconnect"));
 			}
 			label = format!("exactly n={} rejected={}", obs.len(), rejected);
@@ -486,7 +487,11 @@ fn check_raw(c: &RawCase, tr: &raw::RawTrace) -> Result<String, Failure> {
 		Expect::Subseq { sent } => {
 			let mut i = 0;
 			for m in &msgs {
-				while i < sent.len() && &sent[i] != *m {
+				let same = |a: &Ev, b: &Ev| match (a, b) {
+					(Ev::Msg { ty: t1, bytes: b1, .. }, Ev::Msg { ty: t2, bytes: b2, .. }) => t1 == t2 && b1 == b2,
+					_ => false,
+				};
+				while i < sent.len() && !same(&sent[i], m) {
 					i += 1;
 				}
 				if i == sent.len() {
@@ -497,7 +502,9 @@ fn check_raw(c: &RawCase, tr: &raw::RawTrace) -> Result<String, Failure> {
 			label = format!("subseq seen={} rejected={}", msgs.len().min(3), rejected);
 		},
 	}
-	if tr.handshake_done {
+	let acts: Vec<&Step> = c.script.iter().filter(|s| matches!(s, Step::Act { .. })).collect();
+	let clean_hs = acts.len() == raw::handshake_steps(c.role).len() && acts.iter().all(|s| matches!(s, Step::Act { xor, keep } if xor.iter().all(|x| *x == 0) && *keep == usize::MAX)) && !c.script.iter().take_while(|s| !matches!(s, Step::Init | Step::Msg { .. } | Step::Record { .. })).any(|s| matches!(s, Step::Bytes(_)));
+	if tr.handshake_done && clean_hs {
 		// the node's first record must be its Init, readable by the reference
 		match tr.node_msgs.first() {
 			Some(m) if m.len() >= 2 && m[0] == 0 && m[1] == 16 => {},
@@ -729,21 +736,23 @@ fn raw_cases(tier: Tier) -> Vec<RawCase> {
 	// R3: well-formed messages before the raw peer's Init, and (control) after it
 	for role in both_roles() {
 		let hs = raw::handshake_steps(role);
-		v.push(RawCase { family: "control-init-only", role, script: [hs.clone(), vec![Step::Init, Step::Close]].concat(), expect: Expect::Exactly { obs: vec![], must_reject: false }, pong: None });
+		v.push(RawCase { family: "control-init-only", role, script: [hs.clone(), vec![Step::Init, Step::Close]].concat(), expect: Expect::Exactly { obs: vec![], must_reject: Some(false) }, pong: None });
 		v.push(RawCase { family: "no-init-eof", role, script: [hs.clone(), vec![Step::Close]].concat(), expect: Expect::Nothing { must_reject: false }, pong: None });
 		for (ty, payload, obs, pong) in wellformed() {
 			let m = Step::Msg { ty, payload: payload.clone() };
 			v.push(RawCase { family: "wellformed-before-init", role, script: [hs.clone(), vec![m.clone(), Step::Init, m.clone(), Step::Close]].concat(), expect: Expect::Nothing { must_reject: true }, pong: None });
-			v.push(RawCase { family: "wellformed-after-init", role, script: [hs.clone(), vec![Step::Init, m.clone()]].concat(), expect: Expect::Exactly { obs: obs.clone(), must_reject: false }, pong });
+			v.push(RawCase { family: "wellformed-after-init", role, script: [hs.clone(), vec![Step::Init, m.clone()]].concat(), expect: Expect::Exactly { obs: obs.clone(), must_reject: Some(false) }, pong });
 			// twice after Init: both observed, in order
 			let twice: Vec<Ev> = obs.iter().cloned().chain(obs.iter().cloned()).collect();
-			v.push(RawCase { family: "wellformed-after-init", role, script: [hs.clone(), vec![Step::Init, m.clone(), m.clone()]].concat(), expect: Expect::Exactly { obs: twice, must_reject: false }, pong });
+			v.push(RawCase { family: "wellformed-after-init", role, script: [hs.clone(), vec![Step::Init, m.clone(), m.clone()]].concat(), expect: Expect::Exactly { obs: twice, must_reject: Some(false) }, pong });
 			// every strict prefix of the payload after Init: never panics, never invents a message
 			let n = payload.len();
 			let idx: Vec<usize> = if thorough || n <= 80 { (0..n).collect() } else { (0..40).chain(n - 40..n).collect() };
 			for k in idx {
 				let t = Step::Msg { ty, payload: payload[..k].to_vec() };
-				let sent: Vec<Ev> = vec![];
+				// if a strict prefix happens to be a complete message it may be delivered, but only as itself
+				let one = Ev::Msg { h: 255, ty, bytes: payload[..k].to_vec() };
+				let sent: Vec<Ev> = vec![one.clone(), one];
 				v.push(RawCase { family: "truncated-payload-after-init", role, script: [hs.clone(), vec![Step::Init, t, Step::Close]].concat(), expect: Expect::Subseq { sent }, pong: None });
 			}
 		}
@@ -753,18 +762,22 @@ fn raw_cases(tier: Tier) -> Vec<RawCase> {
 		while ty <= 65535 {
 			let t = ty as u16;
 			let m = Step::Msg { ty: t, payload: vec![] };
-			let sent = vec![Ev::Msg { h: H_CUSTOM, ty: t, bytes: vec![] }];
-			v.push(RawCase { family: "type-sweep-before-init", role, script: [hs.clone(), vec![m.clone(), Step::Close]].concat(), expect: Expect::Nothing { must_reject: false }, pong: None });
-			if role == Role::RawInitiator || thorough || t < 1024 || t >= 32768 - 8 && t < 32768 + 8 {
-				v.push(RawCase { family: "type-sweep-after-init", role, script: [hs.clone(), vec![Step::Init, m, Step::Close]].concat(), expect: Expect::Subseq { sent }, pong: None });
+			let sent = vec![Ev::Msg { h: 255, ty: t, bytes: vec![] }, Ev::Msg { h: 255, ty: t, bytes: vec![] }];
+			let before = RawCase { family: "type-sweep-before-init", role, script: [hs.clone(), vec![m.clone(), Step::Close]].concat(), expect: Expect::Nothing { must_reject: false }, pong: None };
+			let pick = thorough || t < 2048 || t % 16 == 0 || (t >= 32768 - 64 && t < 32768 + 64) || t >= 65535 - 64;
+			if !pick {
+				ty += stride;
+				continue;
 			}
+			v.push(before);
+			v.push(RawCase { family: "type-sweep-after-init", role, script: [hs.clone(), vec![Step::Init, m, Step::Close]].concat(), expect: Expect::Subseq { sent }, pong: None });
 			ty += stride;
 		}
 		// malformed records after the handshake
 		v.push(RawCase { family: "record-len0", role, script: [hs.clone(), vec![Step::Record { claimed: 0, body: vec![] }, Step::Close]].concat(), expect: Expect::Nothing { must_reject: true }, pong: None });
-		v.push(RawCase { family: "record-len0", role, script: [hs.clone(), vec![Step::Init, Step::Record { claimed: 0, body: vec![] }, Step::Close]].concat(), expect: Expect::Exactly { obs: vec![], must_reject: true }, pong: None });
+		v.push(RawCase { family: "record-len0", role, script: [hs.clone(), vec![Step::Init, Step::Record { claimed: 0, body: vec![] }, Step::Close]].concat(), expect: Expect::Exactly { obs: vec![], must_reject: Some(true) }, pong: None });
 		for x in 0..=255u8 {
-			v.push(RawCase { family: "record-len1", role, script: [hs.clone(), vec![Step::Init, Step::Record { claimed: 1, body: vec![x] }, Step::Close]].concat(), expect: Expect::Exactly { obs: vec![], must_reject: true }, pong: None });
+			v.push(RawCase { family: "record-len1", role, script: [hs.clone(), vec![Step::Init, Step::Record { claimed: 1, body: vec![x] }, Step::Close]].concat(), expect: Expect::Exactly { obs: vec![], must_reject: Some(true) }, pong: None });
 			v.push(RawCase { family: "record-len1", role, script: [hs.clone(), vec![Step::Record { claimed: 1, body: vec![x] }, Step::Close]].concat(), expect: Expect::Nothing { must_reject: true }, pong: None });
 		}
 		// a length field that lies about the body: the node must fail on the MAC or keep waiting, never deliver
@@ -773,16 +786,16 @@ fn raw_cases(tier: Tier) -> Vec<RawCase> {
 			body.resize(blen.max(2), 0x5a);
 			body.truncate(blen);
 			let follow = Step::Msg { ty: T_CUSTOM, payload: vec![1, 2, 3] };
-			v.push(RawCase { family: "record-length-lie", role, script: [hs.clone(), vec![Step::Init, Step::Record { claimed, body }, follow.clone(), follow, Step::Close]].concat(), expect: Expect::Exactly { obs: vec![], must_reject: false }, pong: None });
+			v.push(RawCase { family: "record-length-lie", role, script: [hs.clone(), vec![Step::Init, Step::Record { claimed, body }, follow.clone(), follow, Step::Close]].concat(), expect: Expect::Exactly { obs: vec![], must_reject: None }, pong: None });
 		}
 		// protocol-level violations
-		v.push(RawCase { family: "second-init", role, script: [hs.clone(), vec![Step::Init, Step::Init, Step::Msg { ty: T_CUSTOM, payload: vec![7] }, Step::Close]].concat(), expect: Expect::Exactly { obs: vec![], must_reject: true }, pong: None });
-		v.push(RawCase { family: "unknown-even-type", role, script: [hs.clone(), vec![Step::Init, Step::Msg { ty: 100, payload: vec![] }, Step::Msg { ty: T_CUSTOM, payload: vec![7] }, Step::Close]].concat(), expect: Expect::Exactly { obs: vec![], must_reject: true }, pong: None });
+		v.push(RawCase { family: "second-init", role, script: [hs.clone(), vec![Step::Init, Step::Init, Step::Msg { ty: T_CUSTOM, payload: vec![7] }, Step::Close]].concat(), expect: Expect::Exactly { obs: vec![], must_reject: Some(true) }, pong: None });
+		v.push(RawCase { family: "unknown-even-type", role, script: [hs.clone(), vec![Step::Init, Step::Msg { ty: 100, payload: vec![] }, Step::Msg { ty: T_CUSTOM, payload: vec![7] }, Step::Close]].concat(), expect: Expect::Exactly { obs: vec![], must_reject: Some(true) }, pong: None });
 		v.push(RawCase {
 			family: "unknown-odd-type",
 			role,
 			script: [hs.clone(), vec![Step::Init, Step::Msg { ty: 101, payload: vec![1, 2] }, Step::Msg { ty: T_CUSTOM, payload: vec![7] }]].concat(),
-			expect: Expect::Exactly { obs: vec![Ev::Msg { h: H_CUSTOM, ty: T_CUSTOM, bytes: vec![7] }], must_reject: false },
+			expect: Expect::Exactly { obs: vec![Ev::Msg { h: H_CUSTOM, ty: T_CUSTOM, bytes: vec![7] }], must_reject: Some(false) },
 			pong: None,
 		});
 		// init with an unknown required (even) feature bit: feature bit 100 -> byte 12 from the end
@@ -801,7 +814,7 @@ fn raw_cases(tier: Tier) -> Vec<RawCase> {
 			family: "max-size-message",
 			role,
 			script: [hs.clone(), vec![Step::Init, Step::Msg { ty: 32001, payload: vec![0xee; 65533] }, Step::Msg { ty: T_CUSTOM, payload: pattern(65533, 9) }]].concat(),
-			expect: Expect::Exactly { obs: vec![Ev::Msg { h: H_CUSTOM, ty: T_CUSTOM, bytes: pattern(65533, 9) }], must_reject: false },
+			expect: Expect::Exactly { obs: vec![Ev::Msg { h: H_CUSTOM, ty: T_CUSTOM, bytes: pattern(65533, 9) }], must_reject: Some(false) },
 			pong: None,
 		});
 	}
@@ -990,13 +1003,14 @@ fn main() {
 		// F2: short message sequence over the size alphabet in both directions
 		let i = idx("seq");
 		let b = &ctx.bases[i];
-		let lo = if thorough { [0, 0] } else { init_start(b) };
+		let lo = if thorough { [0, 0] } else { [b.unit_start(A, 3), b.unit_start(B, 2)] };
 		let mut pool1 = cut_pool(b, [0, 0]);
 		pool1.extend(short_pool(b, [0, 0]));
 		pool1.extend(skip_pool(b));
 		let mut t = vec![WTask { family: "seq<=2", scn: i, mode: Mode::Clean, prefix: vec![], pool: None }];
 		upto_k("seq<=2", i, pool1, 1, &mut t);
-		// pairs: quick = both deviations at or after the start of the Init records; thorough = anywhere
+		// pairs: quick = both deviations at or after the first message record (pairs over the
+		// handshake + Init bytes are family hs<=2); thorough = anywhere
 		let mut pool2 = cut_pool(b, lo);
 		pool2.extend(short_pool(b, lo));
 		pool2.extend(skip_pool(b));
@@ -1042,14 +1056,12 @@ fn main() {
 		let mut t = vec![WTask { family: "pause", scn: i, mode: Mode::Clean, prefix: vec![], pool: None }];
 		upto_k("pause", i, pool, 1, &mut t);
 		let is = init_start(b);
-		let delays = Arc::new(delay_pool());
 		let stride = if thorough { 1 } else { 3 };
 		for d in 0..2 {
-			let hi = if thorough { b.len(d) } else { (b.unit_start(d, hs_units(d) + 4)).min(b.len(d)) };
-			let mut off = is[d];
-			while off < hi {
+			// the writable notification owed after the short write comes 1, 2 or 3 rounds late
+			let delays = Arc::new(vec![Dev::DelayW { dir: d, nth: 0, rounds: 1 }, Dev::DelayW { dir: d, nth: 0, rounds: 2 }, Dev::DelayW { dir: d, nth: 0, rounds: 3 }]);
+			for off in is[d]..b.len(d) {
 				t.push(WTask { family: "pause", scn: i, mode: Mode::Clean, prefix: vec![Dev::Short { dir: d, off }], pool: Some((delays.clone(), 0, delays.len())) });
-				off += 1;
 			}
 		}
 		let mut other: Vec<Dev> = Vec::new();
@@ -1158,8 +1170,15 @@ fn main() {
 					}
 				}
 			}
-			// the oracle for this scenario only needs "rejected, nothing at or after the record delivered";
-			// record k carries message k-1 (one ping is appended at the end, after all 1003 messages)
+			// record k (counted after the acts) carries message k-1; LDK's extra ping is appended
+			// behind all 1003 messages. Check that layout instead of assuming it.
+			let wo = wire_order(&ctx.scns[i], A);
+			for (k, m) in wo.iter().enumerate() {
+				let u = hs_units(A) + 1 + k;
+				if u >= b.units(A) || b.rec_ends[A][u] - b.unit_start(A, u) != m.record_len() {
+					cli::die("scenario rot:a:1003 does not have the wire layout the tamper oracle assumes");
+				}
+			}
 			let mut t = Vec::new();
 			tamper_tasks("flip-rotation", i, devs, &mut t);
 			families.push(("flip-rotation", t));
@@ -1234,71 +1253,80 @@ fn main() {
 		}
 	}
 
-	// 4. run
+	// 4. run (the two large enumerations last, so that a capped run still covers every kind of check)
+	families.sort_by_key(|(f, _)| match *f {
+		"hs<=2" => 1,
+		"seq<=2" => 2,
+		"hs-3cuts" => 3,
+		_ => 0,
+	});
 	let mut samples: Vec<Value> = Vec::new();
 	let mut per_family: BTreeMap<String, Value> = BTreeMap::new();
-	for (fam, tasks) in &families {
-		if !want(fam) {
-			continue;
-		}
-		let t0 = Instant::now();
-		let results = par::map(tasks, threads, |_, t| {
-			let mut a = Agg::default();
-			exec_world(&ctx, t, &mut a);
-			a
-		});
-		let mut a = Agg::default();
-		for r in results {
-			match r {
-				Ok(x) => a.merge(x),
-				Err(p) => cli::die(&format!("harness panic outside the guarded subject call: {}", p)),
-			}
-		}
-		let secs = t0.elapsed().as_secs_f64();
-		timings.push((fam.to_string(), secs, a.runs));
-		let e = per_family.entry(fam.to_string()).or_insert(json!({"runs": 0u64, "wall_s": 0.0}));
-		e["runs"] = json!(e["runs"].as_u64().unwrap() + a.runs);
-		e["wall_s"] = json!(((e["wall_s"].as_f64().unwrap() + secs) * 1000.0).round() / 1000.0);
-		if samples.len() < 12 {
-			if let Some(t) = tasks.iter().rev().find(|t| t.pool.is_some()) {
-				let (pool, from, _) = t.pool.as_ref().unwrap();
-				let mut d: Vec<Value> = t.prefix.iter().map(|x| x.to_json()).collect();
-				d.push(pool[*from].to_json());
-				samples.push(json!({"family": fam, "scenario": ctx.scns[t.scn].name, "devs": d}));
-			}
-		}
-		agg_total.merge(a);
-	}
-
-	// raw peer
 	let mut raw_runs = 0u64;
-	if want("raw") {
-		let t0 = Instant::now();
-		let cases = raw_cases(tier);
-		let chunks: Vec<&[RawCase]> = cases.chunks(128).collect();
-		let results = par::map(&chunks, threads, |_, ch| {
+	for phase in 0..2 {
+		for (fam, tasks) in &families {
+			let late = matches!(*fam, "hs<=2" | "seq<=2" | "hs-3cuts");
+			if !want(fam) || late != (phase == 1) {
+				continue;
+			}
+			let t0 = Instant::now();
+			let results = par::map(tasks, threads, |_, t| {
+				let mut a = Agg::default();
+				exec_world(&ctx, t, &mut a);
+				a
+			});
 			let mut a = Agg::default();
-			for c in ch.iter() {
-				exec_raw(&ctx, c, &mut a);
+			for r in results {
+				match r {
+					Ok(x) => a.merge(x),
+					Err(p) => cli::die(&format!("harness panic outside the guarded subject call: {}", p)),
+				}
 			}
-			a
-		});
-		let mut a = Agg::default();
-		for r in results {
-			match r {
-				Ok(x) => a.merge(x),
-				Err(p) => cli::die(&format!("harness panic outside the guarded subject call: {}", p)),
+			let secs = t0.elapsed().as_secs_f64();
+			timings.push((fam.to_string(), secs, a.runs));
+			let e = per_family.entry(fam.to_string()).or_insert(json!({"runs": 0u64, "wall_s": 0.0}));
+			e["runs"] = json!(e["runs"].as_u64().unwrap() + a.runs);
+			e["wall_s"] = json!(((e["wall_s"].as_f64().unwrap() + secs) * 1000.0).round() / 1000.0);
+			if samples.len() < 12 {
+				if let Some(t) = tasks.iter().rev().find(|t| t.pool.is_some()) {
+					let (pool, from, _) = t.pool.as_ref().unwrap();
+					let mut d: Vec<Value> = t.prefix.iter().map(|x| x.to_json()).collect();
+					d.push(pool[*from].to_json());
+					samples.push(json!({"family": fam, "scenario": ctx.scns[t.scn].name, "devs": d}));
+				}
 			}
+			agg_total.merge(a);
 		}
-		raw_runs = a.runs;
-		timings.push(("raw".into(), t0.elapsed().as_secs_f64(), a.runs));
-		per_family.insert("raw".into(), json!({"runs": a.runs, "wall_s": (t0.elapsed().as_secs_f64() * 1000.0).round() / 1000.0}));
-		if let Some(c) = cases.iter().find(|c| c.family == "wellformed-before-init") {
-			samples.push(raw_replay(c));
-		}
-		agg_total.merge(a);
-	}
 
+		// raw peer
+		if want("raw") && phase == 0 {
+			let t0 = Instant::now();
+			let cases = raw_cases(tier);
+			let chunks: Vec<&[RawCase]> = cases.chunks(128).collect();
+			let results = par::map(&chunks, threads, |_, ch| {
+				let mut a = Agg::default();
+				for c in ch.iter() {
+					exec_raw(&ctx, c, &mut a);
+				}
+				a
+			});
+			let mut a = Agg::default();
+			for r in results {
+				match r {
+					Ok(x) => a.merge(x),
+					Err(p) => cli::die(&format!("harness panic outside the guarded subject call: {}", p)),
+				}
+			}
+			raw_runs = a.runs;
+			timings.push(("raw".into(), t0.elapsed().as_secs_f64(), a.runs));
+			per_family.insert("raw".into(), json!({"runs": a.runs, "wall_s": (t0.elapsed().as_secs_f64() * 1000.0).round() / 1000.0}));
+			if let Some(c) = cases.iter().find(|c| c.family == "wellformed-before-init") {
+				samples.push(raw_replay(c));
+			}
+			agg_total.merge(a);
+		}
+
+	}
 	// 5. violations: keep the smallest witness per (oracle, family, scenario)
 	let mut best: BTreeMap<(String, String, String), Viol> = BTreeMap::new();
 	for v in agg_total.viol.drain(..) {
